@@ -90,7 +90,21 @@ func (config ConfigDistribution) ExportJson(filename string) error {
 
 /* -------------------------------------------------------------------------- */
 
+// element of a decoded json array (nil for a null element)
+func configElem(v reflect.Value) interface{} {
+  if v.Kind() == reflect.Interface || v.Kind() == reflect.Ptr {
+    if v.IsNil() {
+      return nil
+    }
+    return v.Elem().Interface()
+  }
+  return v.Interface()
+}
+
 func (config ConfigDistribution) getBool(a interface{}) (bool, bool) {
+  if a == nil {
+    return false, false
+  }
   switch reflect.TypeOf(a).Kind() {
   case reflect.Bool:
     return bool(reflect.ValueOf(a).Bool()), true
@@ -99,6 +113,9 @@ func (config ConfigDistribution) getBool(a interface{}) (bool, bool) {
 }
 
 func (config ConfigDistribution) getFloat(a interface{}) (float64, bool) {
+  if a == nil {
+    return 0, false
+  }
   switch reflect.TypeOf(a).Kind() {
   case reflect.Float64:
     return reflect.ValueOf(a).Float(), true
@@ -107,6 +124,9 @@ func (config ConfigDistribution) getFloat(a interface{}) (float64, bool) {
 }
 
 func (config ConfigDistribution) getInt(a interface{}) (int, bool) {
+  if a == nil {
+    return 0, false
+  }
   switch reflect.TypeOf(a).Kind() {
   case reflect.Float64:
     return int(reflect.ValueOf(a).Float()), true
@@ -115,6 +135,9 @@ func (config ConfigDistribution) getInt(a interface{}) (int, bool) {
 }
 
 func (config ConfigDistribution) getString(a interface{}) (string, bool) {
+  if a == nil {
+    return "", false
+  }
   switch reflect.TypeOf(a).Kind() {
   case reflect.String:
     return reflect.ValueOf(a).String(), true
@@ -131,7 +154,7 @@ func (config ConfigDistribution) getFloats(a interface{}) ([]float64, bool) {
     s := reflect.ValueOf(a)
     p := make([]float64, s.Len())
     for i := 0; i < s.Len(); i++ {
-      if v, ok := config.getFloat(s.Index(i).Elem().Interface()); !ok {
+      if v, ok := config.getFloat(configElem(s.Index(i))); !ok {
         return nil, false
       } else {
         p[i] = v
@@ -151,7 +174,7 @@ func (config ConfigDistribution) getInts(a interface{}) ([]int, bool) {
     s := reflect.ValueOf(a)
     p := make([]int, s.Len())
     for i := 0; i < s.Len(); i++ {
-      if v, ok := config.getInt(s.Index(i).Elem().Interface()); !ok {
+      if v, ok := config.getInt(configElem(s.Index(i))); !ok {
         return nil, false
       } else {
         p[i] = v
@@ -171,7 +194,7 @@ func (config ConfigDistribution) getStrings(a interface{}) ([]string, bool) {
     s := reflect.ValueOf(a)
     p := make([]string, s.Len())
     for i := 0; i < s.Len(); i++ {
-      if v, ok := config.getString(s.Index(i).Elem().Interface()); !ok {
+      if v, ok := config.getString(configElem(s.Index(i))); !ok {
         return nil, false
       } else {
         p[i] = v
@@ -203,6 +226,9 @@ func (config ConfigDistribution) GetParametersAsMatrix(t ScalarType, n, m int) (
 }
 
 func (config ConfigDistribution) GetNamedParameter(name string) (interface{}, bool) {
+  if config.Parameters == nil {
+    return 0, false
+  }
   switch reflect.TypeOf(config.Parameters).Kind() {
   case reflect.Map:
     s := reflect.ValueOf(config.Parameters)
@@ -236,10 +262,14 @@ func (config ConfigDistribution) GetNamedParametersAsStrings(name string) ([]str
 }
 
 func (config ConfigDistribution) GetNamedParameterAsScalar(name string, t ScalarType) (Scalar, bool) {
-  if v, ok := config.getFloat(config.Parameters); !ok {
+  if p, ok := config.GetNamedParameter(name); !ok {
     return nil, false
   } else {
-    return NewScalar(t, v), true
+    if v, ok := config.getFloat(p); !ok {
+      return nil, false
+    } else {
+      return NewScalar(t, v), true
+    }
   }
 }
 
@@ -296,8 +326,8 @@ func (config ConfigDistribution) getNestedInts(a interface{}) (interface{}, bool
     s := reflect.ValueOf(a)
     p := make([]interface{}, s.Len())
     for i := 0; i < s.Len(); i++ {
-      if v, ok := config.getInt(s.Index(i).Elem().Interface()); !ok {
-        if v, ok := config.getNestedInts(s.Index(i).Elem().Interface()); !ok {
+      if v, ok := config.getInt(configElem(s.Index(i))); !ok {
+        if v, ok := config.getNestedInts(configElem(s.Index(i))); !ok {
           return nil, false
         } else {
           p[i] = v
@@ -369,7 +399,13 @@ func ImportDistribution(filename string, distribution ConfigurableDistribution, 
 
 /* -------------------------------------------------------------------------- */
 
-func ImportScalarPdfConfig(config ConfigDistribution, t ScalarType) (ScalarPdf, error) {
+func ImportScalarPdfConfig(config ConfigDistribution, t ScalarType) (r_ ScalarPdf, err_ error) {
+  // a configuration with missing or surplus entries must not crash the caller
+  defer func() {
+    if r := recover(); r != nil {
+      r_, err_ = nil, fmt.Errorf("invalid config file: %v", r)
+    }
+  }()
   if distribution := NewScalarPdf(config.Name); distribution == nil {
     return nil, fmt.Errorf("unknown distribution: %s", config.Name)
   } else {
@@ -390,7 +426,13 @@ func ImportScalarPdf(filename string, t ScalarType) (ScalarPdf, error) {
 
 /* -------------------------------------------------------------------------- */
 
-func ImportVectorPdfConfig(config ConfigDistribution, t ScalarType) (VectorPdf, error) {
+func ImportVectorPdfConfig(config ConfigDistribution, t ScalarType) (r_ VectorPdf, err_ error) {
+  // a configuration with missing or surplus entries must not crash the caller
+  defer func() {
+    if r := recover(); r != nil {
+      r_, err_ = nil, fmt.Errorf("invalid config file: %v", r)
+    }
+  }()
   if distribution := NewVectorPdf(config.Name); distribution == nil {
     return nil, fmt.Errorf("unknown distribution: %s", config.Name)
   } else {
@@ -411,7 +453,13 @@ func ImportVectorPdf(filename string, t ScalarType) (VectorPdf, error) {
 
 /* -------------------------------------------------------------------------- */
 
-func ImportMatrixPdfConfig(config ConfigDistribution, t ScalarType) (MatrixPdf, error) {
+func ImportMatrixPdfConfig(config ConfigDistribution, t ScalarType) (r_ MatrixPdf, err_ error) {
+  // a configuration with missing or surplus entries must not crash the caller
+  defer func() {
+    if r := recover(); r != nil {
+      r_, err_ = nil, fmt.Errorf("invalid config file: %v", r)
+    }
+  }()
   if distribution := NewMatrixPdf(config.Name); distribution == nil {
     return nil, fmt.Errorf("unknown distribution: %s", config.Name)
   } else {
